@@ -26,7 +26,7 @@ pub broadcast axiom fn ax_key_order<V>(m: Map<String, V>)
 #[verifier::external_body]
 #[verifier::reject_recursive_types(C)]
 pub struct MethodIter<'a, C: ServerContext> { _p: core::marker::PhantomData<&'a C> }
-pub uninterp spec fn mrem<'a, C: ServerContext>(i: MethodIter<'a, C>) -> Seq<(String, ApiEndpoint<C>)>;
+pub uninterp spec fn mrem<'a, C: ServerContext>(i: MethodIter<'a, C>) -> Seq<(String, ApiEndpoint<C>)>;   // = Seq<Pair<C>>
 impl<'a, C: ServerContext> MethodIter<'a, C> {
     /// Iterator::next: the first remaining item, if any; an exhausted iterator stays exhausted (these are
     /// std's fused BTreeMap/slice iterators under flat_map/filter_map)
@@ -78,20 +78,21 @@ pub fn box_map_entries<'a, C: ServerContext, F>(map: &'a BTreeMap<String, Box<Ht
 #[verifier::external_body]
 pub fn iter_handlers_from_node<'a, 'b, 'c, C: ServerContext>(node: &'a HttpRouterNode<C>, version: Option<&'b Version>) -> (r: MethodIter<'c, C>)
     where 'a: 'c, 'b: 'c
-    ensures mrem(r) == own_items(*node, version)
+    ensures mrem(r) == own_pairs(*node, version)
 { unimplemented!() }
 impl<'a, Context: ServerContext> HttpRouterIter<'a, Context> {
-    /// HttpRouterIter::path renders the segment stack as text (format!/join: not verified); the text is opaque
+    /// HttpRouterIter::path renders the labels on the stack (above the placeholder) as text (format!/join: not
+    /// verified): some function `render` of the route
     #[verifier::external_body]
-    pub fn path(&self) -> (r: String) { unimplemented!() }
+    pub fn path(&self) -> (r: String) ensures r@ == render(route_of(self.path@)) { unimplemented!() }
 }
 /// openapiv3::Info / openapiv3::OpenAPI: the document is modelled only by the LOG of operations emitted into it
 #[verifier::external_body]
 pub struct OpenApiInfo { _p: u8 }
 #[verifier::external_body]
 pub struct OpenApiDoc { _p: u8 }
-/// the operations emitted into the document so far: (method name, endpoint), in emission order
-pub uninterp spec fn doc_ops<C: ServerContext>(d: OpenApiDoc) -> Seq<(String, ApiEndpoint<C>)>;
+/// the operations emitted into the document so far: (path text, method name, endpoint), in emission order
+pub uninterp spec fn doc_ops<C: ServerContext>(d: OpenApiDoc) -> Seq<(Seq<char>, String, ApiEndpoint<C>)>;
 /// W10: everything gen_openapi does before its endpoint loop (no operation is emitted there)
 #[verifier::external_body]
 pub fn doc_prologue<C: ServerContext>(info: OpenApiInfo) -> (d: OpenApiDoc)
@@ -102,7 +103,7 @@ pub fn doc_prologue<C: ServerContext>(info: OpenApiInfo) -> (d: OpenApiDoc)
 #[verifier::external_body]
 pub fn emit_operation<'a, C: ServerContext>(d: &mut OpenApiDoc, path: String, method: String, endpoint: &'a ApiEndpoint<C>)
     requires endpoint.visible,
-    ensures doc_ops::<C>(*final(d)) == doc_ops::<C>(*old(d)).push((method, *endpoint))
+    ensures doc_ops::<C>(*final(d)) == doc_ops::<C>(*old(d)).push((path@, method, *endpoint))
 { unimplemented!() }
 /// W10: the collection of referenced schemas and error responses after the loop (emits no operation)
 #[verifier::external_body]
